@@ -631,6 +631,14 @@ def shard(shard, seed, n):
         if rnd.random() < 0.15:
             check_solver_history(run, rnd)
             return
+        if rnd.random() < 0.04:
+            # optimiser objects: optimisation calls that fail (unknown strategy, a goal the backend gives up on) are made
+            # first; the generated optimisation case of C18 then runs on the same object and is judged as usual
+            # (optimum, assertion stack and backend depth restored)
+            from vf.checks import c18
+            c18.random_case(run, rnd, failing_first=rnd.randrange(1, 16))
+            run.cls("optimiser-history")
+            return
         check_history(run, *gen_case(rnd))
     drive(body, st.randoms(use_true_random=True), n, derive_seed(seed, "c15", shard))
     return run
@@ -656,8 +664,16 @@ def main():
 def replay(rec):
     run = Run(PID, known=[])
     c = rec["case"]
-    hist = [(h[0], tuple(h[1])) for h in c["history"]]
-    check_history(run, c["probe"], hist, [tuple(x) for x in c["probes"]], c.get("texts", []))
+    if "system" in c:
+        from vf.checks import c18
+        c18.check_case(run, tuple(c["system"]), tuple(tuple(s_) for s_ in c["goals"]), c["routine"], c["strategy"], c["mixin"],
+                       c["reverse"], c["user_levels"], reuse=c.get("reuse", False), failing_first=c.get("failing_first", 0))
+    elif "probe" not in c:
+        print("replay: a solver history is re-generated from the seed, not replayed")
+        return 0
+    else:
+        hist = [(h[0], tuple(h[1])) for h in c["history"]]
+        check_history(run, c["probe"], hist, [tuple(x) for x in c["probes"]], c.get("texts", []))
     if run.violations:
         print("VIOLATION property=%s replay=(replayed)" % PID)
         print(run.violations[0]["detail"])
